@@ -504,14 +504,28 @@ C03.manifest = {
             "kind and edge multiset (C03_traversal_arcs_depend_on_edge_store_only); distances also in the weaker form "
             "'same edge-store arcs' (C03_distances_depend_on_arcs_only). Non-vacuity: a KeepLast history that replaces a "
             "weight and a multigraph history in another insertion order (different successors_vec) give equal results "
-            "(C03_edge_store_only_nonvacuous).",
+            "(C03_edge_store_only_nonvacuous). "
+            "ALSO THE SHORTEST PATHS single_source reports (with_paths=true; Proofs/PathsStoreOnly.v): with "
+            "first_only=false and positive weights, for every name reported by both graphs the two path lists are "
+            "duplicate free and contain the same paths, i.e. are permutations of each other - they are exactly the name "
+            "forms of the shortest paths of the edge-store graph (C03_paths_depend_on_edge_store_only, "
+            "C03_paths_depend_on_arcs_only, from C04_reachable_single_source_paths_exact); with first_only=true "
+            "(non-negative weights) each graph reports exactly one path per node and both are shortest paths of the common "
+            "edge-store graph (C03_first_path_depends_on_edge_store_only, C03_first_path_depends_on_arcs_only). Evaluated "
+            "witnesses: a KeepLast history with a replacement and a KeepFirst history with ignored duplicates in another "
+            "order report the two shortest paths of a diamond in a DIFFERENT ORDER and, with first_only, DIFFERENT single "
+            "paths (C03_paths_edge_store_only_nonvacuous); with a ZERO weight even the path SET depends on the insertion "
+            "order, so the positivity premise is necessary (C03_paths_zero_weight_depend_on_history).",
     "note": "Axioms: none. Trusted: Coq kernel; harness + hook verif_snapshot. Premises of the consequence theorems are "
             "those of the quoted end-to-end theorems: in weighted mode no stored weight is NaN (the property's 'uniformly "
             "weighted'; a group mixing NaN and real weights has an order-dependent running minimum), non-negative for "
             "distances, positive for the centralities; small_adj (< 2^31-1 adjacency entries, the i32 counter of "
             "dijkstra.rs) for distances. With a target, WHICH other nodes single_source also reports depends on the pop "
             "order among equal distances, hence on the history: only the reported distances and the target's entry are "
-            "functions of the edge store, and the theorem says exactly that. Eigenvector centrality (C18) and the "
+            "functions of the edge store, and the theorem says exactly that. Of the reported PATHS the set (first_only=false, "
+            "positive weights) is a function of the edge store, the ORDER of the list and the single path kept by first_only "
+            "are not (they follow the order of the adjacency rows), and the theorems say exactly that. Eigenvector "
+            "centrality (C18) and the "
             "multi_source / all_pairs maps are not restated here (C08 proves the latter equal single_source per key). "
             "Defect F1 (KeepFirst/KeepLast kept the minimum instead of the stored weight) was repaired by a fix: commit; "
             "the model is the repaired code.",
@@ -836,7 +850,16 @@ C02.manifest = {
             "filters of get_all_edges with NodeNotFound / WrongMethod as specified (C02_has_nodes, C02_*_for_nodes); the "
             "name<->position lookups are mutually inverse views of the node list (C02_name_position) and the name-keyed "
             "maps handed out by get_successors_map / get_predecessors_map list, duplicate-free, exactly the names joined by "
-            "a stored group (C02_successors_map, C02_predecessors_map). All of it is also tied to the code by the "
+            "a stored group (C02_successors_map, C02_predecessors_map). INSERTION ORDER of parallel edges (deep14, "
+            "Proofs/InsertionOrder.v): one accepted add_edge on a multigraph APPENDS the edge, in storage orientation, to the "
+            "list stored between its own pair and leaves every other pair's list alone (C02_parallel_edges_insertion_order_step; "
+            "single-edge graphs: KeepFirst keeps, KeepLast replaces, C02_single_edge_step; dropped self-loops, errors, "
+            "add_node(s) change no list, C02_other_calls_keep_order; batches fold the step up to the first failure, "
+            "C02_batch_insertion_order_step); for EVERY history from new(specs) the list get_edges returns for a pair is exactly "
+            "the history's add_edge calls that returned Ok (not dropped) on that pair, in CALL ORDER (the first / last of them on "
+            "a single-edge graph): C02_parallel_edges_insertion_order_history, C02_get_edges_history, C02_single_edge_kept_history; "
+            "when every call returned Ok, and for new_from_nodes_and_edges, this is computed from the caller's edge list alone "
+            "(C02_insertion_order_all_ok, C02_new_from_insertion_order, C02_new_from_get_edges). All of it is also tied to the code by the "
             "correspondence and recomputed from the public node/edge lists by an independent oracle on every history.",
     "note": "Axioms: none. BFS is still ALSO compared per case (model vs code, and the oracle's own reachability). "
             "Defect F3 (directed self-loop listed twice) repaired by a fix: commit.",
@@ -860,7 +883,10 @@ C09.manifest = {
             "get_sparse_adjacency_matrix (single-edge graphs): a triplet (i,j,w) is emitted iff an edge is stored "
             "between the i-th and the j-th node (either orientation when undirected), w = its weight (1.0 when "
             "unweighted), and the matrix is symmetric when undirected (C09_matrix, C09_matrix_symmetric; needs the "
-            "WF clause wf_emkeys: the edge store has duplicate-free keys, proved for every reachable state).",
+            "WF clause wf_emkeys: the edge store has duplicate-free keys, proved for every reachable state). The six "
+            "*_for_all_nodes maps: keys = node names in node order, every entry (x, d) is the per-node function's answer "
+            "Ok(Some d) (C09_degree_maps_values, any state), closed forms on a coherent state (C09_degree_maps_exact, "
+            "C09_weighted_degree_map_exact).",
     "note": "Axioms: none. Not proved: float rounding of the weighted sums (modelled exactly; the implementation sums "
             "sorted so that the order cannot matter, compared at 1e-9). Each matrix position is emitted at most once "
             "(C09_matrix_positions_once), so summing repeated positions in the CSR conversion cannot change a value. "
